@@ -284,7 +284,6 @@ def configs(tier):
     if tier == "thorough":
         add(N=4, M=1, latency="sym", free_kinds=["quote"])
         add(N=3, M=2, latency="sym", free_kinds=["quote", "ping"])
-        add(N=4, M=2, latency="sym", free_kinds=["quote", "quote"])
         add(N=3, M=1, latency="sym", free_kinds=["quote"], fold="sym", markov=True)
         add(N=3, M=1, latency="sym", free_kinds=["quote"], fold="sym", warmup="sym")
         add(N=4, M=1, latency="sym", free_kinds=["quote"], delay=2)
@@ -305,7 +304,8 @@ ASSUMPTIONS = _A + ["payloads (quote prices of every bar and extra quote, custom
                     "forked branch decision that reads a later value counts as a leak"]
 BOUNDS = {"quick": "grids of 3 timesteps, one extra quote or custom event placed by the solver, symbolic latency, delay 0-1, "
                    "symbolic fold, a feature with history, two reward classes; every interaction of the episode is a cut",
-          "thorough": "grids of 4, two extra events, markov reset / warm-up, two contracts, delay 2"}
+          "thorough": "grids of 4 with one extra event, grids of 3 with two, markov reset / warm-up, two contracts, delay 2 "
+                      "(grid of 4 with two extra events did not finish within the 90-minute budget and was dropped)"}
 OUTSIDE = ["the tabular API (TradingEnvXY data preparation: sklearn fit, pandas reindex/ffill/clip run in compiled code "
            "that proxies cannot enter) — see DESIGN §5", "perturbing stamps or the number of later events"]
 STUBS = ["builtin float() shadowed in tradingenv.rewards", "np.log uninterpreted (log-reward config)"]
